@@ -3,7 +3,7 @@
 Each obligation builds an in-memory source (symxr dataset / arrays) whose *contents and dialect* are symbolic, runs the real
 reader through the public constructors of the cloned Grid (Grid.from_dataset incl. format sniffing, Grid.from_topology,
 Grid.from_face_vertices) and compares with a reference decoding written from the format specifications.
-Outside: file bytes -> dataset (xr.open_dataset, geopandas) - C libraries; GEOS-CS, ICON and shapefile readers."""
+Outside: file bytes -> dataset (xr.open_dataset, geopandas) - C libraries; shapefile/GeoJSON reader."""
 import z3
 import numpy as np
 from symex import core as sc, symnp, symxr
@@ -406,6 +406,162 @@ def make_face_vertices(oid, tiers=("quick", "thorough"), sizes=None, cost=5):
                       functions=["Grid.from_face_vertices", "_vertices._read_face_vertices", "Grid.__init__"],
                       bounds="2 faces <= 4 vertices (padding rows of fill values), 6 vertex positions in longitude bands ordered unlike the numbering, two vertices on one meridian",
                       tiers=tiers, timeout_s=3000, query_timeout_s=1500, cost=cost)
+
+
+def make_icon(oid, tiers=("quick", "thorough")):
+    """ICON primal mesh: one-based, entity-minor tables ([3, cell], [2, edge]); entries <= 0 mark a missing neighbour"""
+    nC, nV, nE = 2, 4, 5
+
+    def setup(ctx):
+        voc = _tbl(ctx, "voc", nC, 3, 0, nV - 1)          # zero-based reference values; the source holds +1
+        eoc = _tbl(ctx, "eoc", nC, 3, 0, nE - 1)
+        nci = _tbl(ctx, "nci", nC, 3, -1, nC - 1)         # -1: no neighbour
+        aoe = _tbl(ctx, "aoe", nE, 2, -1, nC - 1)
+        ev = _tbl(ctx, "ev", nE, 2, 0, nV - 1)
+        miss = ctx.int("missing_marker", -1, 0)           # what the source writes for 'no neighbour'
+        R = {}
+        for nm, n in (("v", nV), ("c", nC), ("e", nE)):
+            R[nm + "lon"] = _reals(ctx, nm + "lon", n, sc.lift(-3.1), sc.lift(6.2))
+            R[nm + "lat"] = _reals(ctx, nm + "lat", n, sc.lift(-1.5), sc.lift(1.5))
+        return voc, eoc, nci, aoe, ev, miss, R
+
+    def tables(voc, eoc, nci, aoe, ev, miss, If):
+        src = lambda t: [[If(x, x + 1, miss) for x in r] for r in t]       # noqa: E731
+        T = lambda t: [list(c) for c in zip(*t)]                            # noqa: E731
+        return {"vertex_of_cell": (["nv", "cell"], T(src(voc))), "edge_of_cell": (["nv", "cell"], T(src(eoc))),
+                "neighbor_cell_index": (["nv", "cell"], T(src(nci))), "adjacent_cell_of_edge": (["nc", "edge"], T(src(aoe))),
+                "edge_vertices": (["nc", "edge"], T(src(ev)))}
+
+    def run(ctx, inp):
+        voc, eoc, nci, aoe, ev, miss, R = inp
+        ds = symxr.Dataset()
+        for nm, dim in (("v", "vertex"), ("c", "cell"), ("e", "edge")):
+            for ll in ("lon", "lat"):
+                ds[nm + ll] = symxr.DataArray(C.sarr_1d(R[nm + ll], symnp.float64), dims=[dim])
+        zmiss = sc.z(miss)
+        for name, (dims, rows) in tables(voc, eoc, nci, aoe, ev, zmiss, lambda x, a, b: z3.If(x >= 0, a, b)).items():
+            ds[name] = symxr.DataArray(symnp.SArr.new([mk(x) for r in rows for x in r], (len(rows), len(rows[0])), None, symnp.int32), dims=dims)
+        Grid = world().get("uxarray.grid.grid", "Grid")
+        g = Grid.from_dataset(ds)
+        ctx.prove("sniffed as ICON", g.source_grid_spec == "ICON")
+        for prop, ref in (("face_node_connectivity", voc), ("face_edge_connectivity", eoc), ("face_face_connectivity", nci),
+                          ("edge_face_connectivity", aoe), ("edge_node_connectivity", ev)):
+            _prove_table(ctx, f"{prop} = source table transposed, one-based -> zero-based, missing neighbours -> fill, platform integers",
+                         getattr(g, prop).values, ref, lambda r, c, ref=ref: ref[r][c] >= 0, 0)
+        for kind, nm, n in (("node", "v", nV), ("face", "c", nC), ("edge", "e", nE)):
+            glon, glat = getattr(g, kind + "_lon").values, getattr(g, kind + "_lat").values
+            ctx.prove(f"{kind} coordinates = rad2deg of the source (lon wrapped into [-180,180])", z3.And(
+                *[z3.And(_lon_ok(_zr(glon[i]), R[nm + "lon"][i] * 180 / sc.lift(symnp.PI_Q)), _zr(glat[i]) == R[nm + "lat"][i] * 180 / sc.lift(symnp.PI_Q)) for i in range(n)]))
+
+    def replay(v):
+        import xarray as xr
+        import uxarray as ux
+        ds = xr.Dataset()
+        for nm, dim in (("v", "vertex"), ("c", "cell"), ("e", "edge")):
+            for ll in ("lon", "lat"):
+                ds[nm + ll] = xr.DataArray(np.array(v[nm + ll], dtype=float), dims=[dim])
+        miss = int(v["missing_marker"])
+        for name, (dims, rows) in tables(v["voc"], v["eoc"], v["nci"], v["aoe"], v["ev"], miss, lambda x, a, b: a if x >= 0 else b).items():
+            ds[name] = xr.DataArray(np.array(rows, dtype=np.int32), dims=dims)
+        try:
+            g = ux.Grid.from_dataset(ds)
+        except Exception as e:
+            return f"ICON source raised {type(e).__name__}: {str(e)[:150]}"
+        for prop, key in (("face_node_connectivity", "voc"), ("face_edge_connectivity", "eoc"), ("face_face_connectivity", "nci"),
+                          ("edge_face_connectivity", "aoe"), ("edge_node_connectivity", "ev")):
+            got = getattr(g, prop).values
+            exp = np.array([[x if x >= 0 else F for x in r] for r in v[key]], dtype=np.intp)
+            if got.dtype != np.intp:
+                return f"ICON source: {prop} has dtype {got.dtype}, not the platform integer"
+            if got.shape != exp.shape or not np.array_equal(got, exp):
+                return f"ICON source (missing-neighbour marker {miss}): {prop} decoded as {got.tolist()}, the source describes {exp.tolist()}"
+        if not np.allclose(((g.node_lon.values - np.degrees(v["vlon"])) + 180) % 360 - 180, 0, atol=1e-9) or np.any(np.abs(g.node_lon.values) > 180 + 1e-9):
+            return f"ICON source: node_lon {g.node_lon.values.tolist()} for vlon (deg) {np.degrees(v['vlon']).tolist()}"
+        return None
+
+    return Obligation(oid, "ICON dataset -> Grid", setup, run, replay, exact=True,
+                      functions=["Grid.from_dataset", "io.utils._parse_grid_type", "_icon._read_icon", "_icon._primal_to_ugrid", "coordinates._set_desired_longitude_range"],
+                      bounds="2 cells, 4 vertices, 5 edges; every table entry symbolic; missing-neighbour marker 0 or -1; coordinates in radians", tiers=tiers)
+
+
+def make_geos(oid, tiers=("quick", "thorough")):
+    """GEOS cube-sphere: corner_lons/lats [nf, Y+1, X+1] and centre lons/lats [nf, Y, X]; no connectivity in the source"""
+    nf, ny, nx = 2, 2, 3          # cells per tile: ny x nx ; corners (ny+1) x (nx+1)
+
+    def setup(ctx):
+        clon = _reals(ctx, "corner_lon", nf * (ny + 1) * (nx + 1), -180, 360)
+        clat = _reals(ctx, "corner_lat", nf * (ny + 1) * (nx + 1), -90, 90)
+        lon = _reals(ctx, "lon", nf * ny * nx, -180, 360)
+        lat = _reals(ctx, "lat", nf * ny * nx, -90, 90)
+        return clon, clat, lon, lat
+
+    def run(ctx, inp):
+        clon, clat, lon, lat = inp
+        A = lambda vals, shape: symnp.SArr.new([mk(x) for x in vals], shape, None, symnp.float64)      # noqa: E731
+        ds = symxr.Dataset()
+        ds["corner_lons"] = symxr.DataArray(A(clon, (nf, ny + 1, nx + 1)), dims=["nf", "YCdim", "XCdim"])
+        ds["corner_lats"] = symxr.DataArray(A(clat, (nf, ny + 1, nx + 1)), dims=["nf", "YCdim", "XCdim"])
+        ds["lons"] = symxr.DataArray(A(lon, (nf, ny, nx)), dims=["nf", "Ydim", "Xdim"])
+        ds["lats"] = symxr.DataArray(A(lat, (nf, ny, nx)), dims=["nf", "Ydim", "Xdim"])
+        Grid = world().get("uxarray.grid.grid", "Grid")
+        g = Grid.from_dataset(ds)
+        ctx.prove("sniffed as GEOS-CS", g.source_grid_spec == "GEOS-CS")
+        fn = g.face_node_connectivity.values
+        ctx.prove("one quadrilateral per cell, platform integers", fn.shape_cap == (nf * ny * nx, 4) and _int_dtype(fn))
+        if fn.shape_cap != (nf * ny * nx, 4):
+            return
+        glon, glat = [_zr(x) for x in g.node_lon.values.flat_list()], [_zr(x) for x in g.node_lat.values.flat_list()]
+        nn = len(glon)
+
+        def sel(arr, idx):
+            out = arr[-1]
+            for i in range(len(arr) - 2, -1, -1):
+                out = z3.If(idx == i, arr[i], out)
+            return out
+        cidx = lambda t, i, j: (t * (ny + 1) + i) * (nx + 1) + j          # noqa: E731
+        for t in range(nf):
+            for i in range(ny):
+                for j in range(nx):
+                    k = (t * ny + i) * nx + j
+                    ring = [(i, j), (i, j + 1), (i + 1, j + 1), (i + 1, j)]       # the cell's corners in lattice order
+                    rots = []
+                    for rev in (False, True):
+                        seq = list(reversed(ring)) if rev else ring
+                        for r0 in range(4):
+                            sq = seq[r0:] + seq[:r0]
+                            rots.append(z3.And(*[z3.And(sc.z(fn[k, c]) >= 0, sc.z(fn[k, c]) < nn,
+                                                        _lon_ok(sel(glon, sc.z(fn[k, c])), clon[cidx(t, *sq[c])]), sel(glat, sc.z(fn[k, c])) == clat[cidx(t, *sq[c])]) for c in range(4)]))
+                    ctx.prove(f"cell ({t},{i},{j}) -> face {k}: its four corners in a cyclic order around the cell", z3.Or(*rots))
+        fl, ft = g.face_lon.values.flat_list(), g.face_lat.values.flat_list()
+        ctx.prove("cell centres carried in face order", z3.And(*[z3.And(_lon_ok(_zr(fl[k]), lon[k]), _zr(ft[k]) == lat[k]) for k in range(nf * ny * nx)]))
+
+    def replay(v):
+        import xarray as xr
+        import uxarray as ux
+        cl, ct = np.array(v["corner_lon"], dtype=float).reshape(nf, ny + 1, nx + 1), np.array(v["corner_lat"], dtype=float).reshape(nf, ny + 1, nx + 1)
+        ds = xr.Dataset()
+        ds["corner_lons"] = xr.DataArray(cl, dims=["nf", "YCdim", "XCdim"]); ds["corner_lats"] = xr.DataArray(ct, dims=["nf", "YCdim", "XCdim"])
+        ds["lons"] = xr.DataArray(np.array(v["lon"], dtype=float).reshape(nf, ny, nx), dims=["nf", "Ydim", "Xdim"])
+        ds["lats"] = xr.DataArray(np.array(v["lat"], dtype=float).reshape(nf, ny, nx), dims=["nf", "Ydim", "Xdim"])
+        g = ux.Grid.from_dataset(ds)
+        fn = g.face_node_connectivity.values
+        if fn.dtype != np.intp or fn.shape != (nf * ny * nx, 4):
+            return f"GEOS-CS: face_node_connectivity dtype {fn.dtype} shape {fn.shape}"
+        for t in range(nf):
+            for i in range(ny):
+                for j in range(nx):
+                    k = (t * ny + i) * nx + j
+                    ring = [(cl[t, a, b], ct[t, a, b]) for a, b in ((i, j), (i, j + 1), (i + 1, j + 1), (i + 1, j))]
+                    got = [(float(g.node_lon.values[n]), float(g.node_lat.values[n])) for n in fn[k]]
+                    same = lambda p, q: abs(((p[0] - q[0]) + 180) % 360 - 180) < 1e-9 and abs(p[1] - q[1]) < 1e-9      # noqa: E731
+                    ok = any(all(same(got[c], sq[c]) for c in range(4)) for seq in (ring, ring[::-1]) for r0 in range(4) for sq in [seq[r0:] + seq[:r0]])
+                    if not ok:
+                        return f"GEOS-CS cell ({t},{i},{j}): face {k} has corners {got}, the cell's corners are {ring}"
+        return None
+
+    return Obligation(oid, "GEOS cube-sphere dataset -> Grid", setup, run, replay, exact=True,
+                      functions=["Grid.from_dataset", "io.utils._parse_grid_type", "_geos._read_geos_cs", "coordinates._set_desired_longitude_range"],
+                      bounds="2 tiles of 2 x 3 cells (3 x 4 corners), every corner / centre position symbolic", tiers=tiers)
 
 
 def make_esmf(oid, si_case, tiers=("quick", "thorough")):
@@ -842,6 +998,7 @@ def obligations(tier):
     obs += [make_mpas("C01.mpas.primal", False), make_mpas("C01.mpas.dual", True)]
     obs += [make_exodus("C01.exodus.coord", "coord"), make_exodus("C01.exodus.coordxyz", "coordxyz"),
             make_exodus_blocks("C01.exodus.blocks.tri_quad", False), make_exodus_blocks("C01.exodus.blocks.quad_tri", True),
+            make_icon("C01.icon"), make_geos("C01.geos"),
             make_face_vertices("C01.vertices.q4t3", sizes=[4, 3]), make_face_vertices("C01.vertices", tiers=("thorough",), cost=40),
             make_scrip("C01.scrip.180.q4t3", "180", sizes=[4, 3]), make_scrip("C01.scrip.360.t3q4", "360", sizes=[3, 4], tiers=("thorough",), cost=30),
             make_scrip("C01.scrip.180", "180", tiers=("thorough",), cost=40), make_scrip("C01.scrip.360", "360", tiers=("thorough",), cost=100)]
